@@ -71,7 +71,12 @@ var RefKinds = []string{"schema", "parameter", "header", "requestBody", "respons
 var httpMethods = []string{"get", "put", "post", "delete", "options", "head", "patch", "trace"}
 
 // Positions enumerates every position of a referenceable kind in doc, in deterministic order.
-func Positions(doc map[string]any) []Position {
+func Positions(doc map[string]any) []Position { return positions(doc, false) }
+
+// PositionsAll also lists the positions of operations, media types and encodings.
+func PositionsAll(doc map[string]any) []Position { return positions(doc, true) }
+
+func positions(doc map[string]any, all bool) []Position {
 	var out []Position
 	add := func(ptr []string, kind string) { out = append(out, Position{append([]string{}, ptr...), kind}) }
 	var walk func(node any, kind string, ptr []string)
@@ -112,6 +117,10 @@ func Positions(doc map[string]any) []Position {
 		switch kind {
 		case "schema", "parameter", "header", "requestBody", "response", "example", "link", "callback", "securityScheme", "pathItem":
 			add(ptr, kind)
+		default:
+			if all {
+				add(ptr, kind)
+			}
 		}
 		m, ok := node.(map[string]any)
 		if !ok {
